@@ -43,8 +43,8 @@ Record Rat (s : sdb) (r : rstate) (a : addr) : Prop := {
   A_wr : r_wr r a = false -> rs (r_get r a) = false ->
          (forall k, stor (cur_store s) a k = stor (txs s) a k) /\
          (forall o, lookup s a = Some o -> trivial_dirty (txs s) a o);
-  (* a blocked account's bank balance is the one recorded at the last successful flush *)
-  A_base : In a (blocked (cf s)) -> bank_bal (cur_store s) a = r_base r a
+  (* the reference knows what the bank holds *)
+  A_base : bank_bal (cur_store s) a = r_base r a
 }.
 
 Definition R (s : sdb) (r : rstate) : Prop := auxeq (aux s) (r_aux r) /\ forall a, Rat s r a.
@@ -73,7 +73,7 @@ Lemma R_wr s r : R s r -> forall a, r_wr r a = false -> rs (r_get r a) = false -
                    (forall k, stor (cur_store s) a k = stor (txs s) a k) /\
                    (forall o, lookup s a = Some o -> trivial_dirty (txs s) a o).
 Proof. intros [_ H] a. apply (A_wr s r a (H a)). Qed.
-Lemma R_base s r : R s r -> forall a, In a (blocked (cf s)) -> bank_bal (cur_store s) a = r_base r a.
+Lemma R_base s r : R s r -> forall a, bank_bal (cur_store s) a = r_base r a.
 Proof. intros [_ H] a. apply (A_base s r a (H a)). Qed.
 
 Lemma auxeq_sym x y : auxeq x y -> auxeq y x.
@@ -131,7 +131,7 @@ Proof.
     destruct (lookup s a) as [o|] eqn:Hs'; [|contradiction].
     intros k v Hv. rewrite (ole_comm _ _ _ _ k L). destruct L as (_&_&_&_&L5).
     destruct (L5 k) as [_ [E|(E1&E2&_)]]; [apply (W2 o eq_refl k v); congruence | congruence].
-  - intros Hb. rewrite <- S. apply (R_base s r HR a). rewrite C. exact Hb.
+  - rewrite <- S. apply (R_base s r HR a).
 Qed.
 
 Lemma the_obj_match s r a : R s r -> omatch (the_obj s a) (r_get r a).
@@ -155,7 +155,7 @@ Definition updd (s' : sdb) (r' : rstate) (x : addr) : Prop :=
     obj_good (txs s') (cur_store s') x o' /\
     (r_wr r' x = false -> rs y' = false ->
        (forall k, stor (cur_store s') x k = stor (txs s') x k) /\ trivial_dirty (txs s') x o') /\
-    (In x (blocked (cf s')) -> bank_bal (cur_store s') x = r_base r' x).
+    (bank_bal (cur_store s') x = r_base r' x).
 
 Lemma Rat_unch s s' r r' x : Rat s r x -> txs s' = txs s -> cf s' = cf s -> unch s s' r r' x -> Rat s' r' x.
 Proof.
@@ -175,7 +175,7 @@ Proof.
     destruct (A_wr s r x HA Hw Hs) as [W1 W2]. rewrite T. split.
     + intros k. rewrite U4. apply W1.
     + intros o Hl. rewrite U1 in Hl. apply W2; exact Hl.
-  - intros Hb. unfold bank_bal. rewrite U3, U8. apply (A_base s r x HA). rewrite <- CF. exact Hb.
+  - unfold bank_bal. rewrite U3, U8. apply (A_base s r x HA).
 Qed.
 
 (** the same with the blocked-account clause given directly *)
@@ -184,7 +184,7 @@ Lemma Rat_unchB s s' r r' x :
   lookup s' x = lookup s x -> dirt s' x = dirt s x ->
   accs (cur_store s') x = accs (cur_store s) x -> (forall k, stor (cur_store s') x k = stor (cur_store s) x k) ->
   r_accs r' x = r_accs r x -> (forall k, r_stor r' x k = r_stor r x k) -> r_wr r' x = r_wr r x ->
-  (In x (blocked (cf s')) -> bank_bal (cur_store s') x = r_base r' x) ->
+  bank_bal (cur_store s') x = r_base r' x ->
   Rat s' r' x.
 Proof.
   intros HA T U1 U2 U3 U4 U5 U6 U7 B.
@@ -311,7 +311,7 @@ Proof.
       split; [intros c0 Hc0; rewrite Hc in Hc0; inversion Hc0; lia|].
       split; [intros [E|E]; rewrite Hc in E; inversion E; lia|].
       split; [exact Hst|]. split; [exact Hg|]. split; [exact Hw|].
-      intros Hb. rewrite Hbase. apply (R_base s r HR a). rewrite <- CF. exact Hb.
+      rewrite Hbase. apply (R_base s r HR a).
     + left. unfold unch. destruct (Hoff x Hne) as (O1&O2&O3). rewrite Cu.
       split; [subst s'; rewrite lookup_set_other, lookup_push by assumption; apply get_or_new_lookup_other; assumption|].
       split; [subst s'; unfold set_obj; sdb_simp; rewrite push_dirt, Hd; unfold dinc; rewrite upd_other by assumption; apply get_or_new_dirt_other; assumption|].
